@@ -45,7 +45,8 @@ Step(o) ==
      /\ impl' = IF ~r.raised /\ o.op \in {"setattr", "add"} /\ ~IsPrivate(o.name)
                 THEN Insert(impl, o.name, o.kind, id) ELSE impl
 
-Next == Len(hist) < Depth /\ \E o \in Ops : Step(o)
+ReAdd == {O("readd", n, "", m) : n \in DOMAIN s.ns, m \in {"set", "add"}}
+Next == Len(hist) < Depth /\ \E o \in Ops \cup ReAdd : Step(o)
 Spec == Init /\ [][Next]_vars
 
 Emit == IF Len(hist') = Depth THEN PrintT(<<"CASE", ToJson(hist')>>) ELSE TRUE
